@@ -157,3 +157,61 @@ package engine
 //@   assigns c.dots, elems(c.dots)
 //@   ensures m != nil
 //@   ensures c.meta == nil ==> m == compiledR(c.fset, v, c.patchStart, c.patchEnd)
+
+// ---- elision (C04) ---------------------------------------------------------------------------------
+
+//@ func sectionRegion(items, r, start, end) (r1)
+//@   requires 0 <= start && start <= len(items) && 0 <= end && end <= len(items)
+//@   requires typing: forall i int {items[i]} :: 0 <= i && i < len(items) ==> implements(rvIface(items[i]), "go/ast.Node")
+//@   ensures r1 == secRegion(items, r, start, end)
+//@   unfold-post secRegion(items, r, start, end) == r1
+//@   assigns nothing
+
+//@ func pushSliceDotsSkipped(d, dots, got, r) (d1)
+//@   requires d != nil
+//@   unfold-post dotsPushed(dmap(d), dots, got, r) == dmap(d1)
+//@   ensures dmap(d1) == dotsPushed(dmap(d), dots, got, r)
+//@   ensures [C02] keepsBindings(dmap(d), dmap(d1))
+//@   ensures d1 != nil
+//@   assigns nothing
+
+// matchPrefix: all of want matches got[idx], got[idx+1], ... in order, data threaded left to right.
+//@ func matchPrefix(want, got, d, r, idx) (newIdx, d1, ok)
+//@   requires d != nil && 0 <= idx && idx <= len(got)
+//@   requires forall j int {want[j]} :: 0 <= j && j < len(want) ==> want[j] != nil
+//@   unfold thrAt(want, got, dmap(d), r, idx, 0) == dmap(d)
+//@   ensures [C04] ok == pfxOK(want, got, dmap(d), r, idx)
+//@   ensures [C04] ok ==> newIdx == idx + len(want) && dmap(d1) == thrAt(want, got, dmap(d), r, idx, len(want))
+//@   ensures [C04] !ok ==> newIdx == idx
+//@   ensures [C04] len(want) == 0 ==> dmap(d1) == dmap(d)
+//@   ensures [C02] ok ==> keepsBindings(dmap(d), dmap(d1))
+//@   ensures d1 != nil
+//@   assigns nothing
+//@   loop 0
+//@     unfold thrAt(want, got, dmap(d0), r, idx, #k + 1) == MatchD(want[#k], got[idx + #k], thrAt(want, got, dmap(d0), r, idx, #k), r)
+//@     invariant d != nil
+//@     invariant dmap(d) == thrAt(want, got, dmap(d0), r, idx, #k)
+//@     invariant forall j int {want[j]} :: 0 <= j && j < #k ==> MatchOK(want[j], got[idx + j], thrAt(want, got, dmap(d0), r, idx, j), r)
+//@     invariant keepsBindings(dmap(d0), dmap(d))
+
+// findSection: the section is searched from idx onwards; the elision in front of it takes the
+// shortest run that lets the section match (first position, left to right). Every attempt starts
+// from the data the search was entered with (C02: a failed attempt leaves no bindings behind).
+//@ func findSection(dots, want, got, d, r, idx) (newIdx, d1, ok)
+//@   requires d != nil && 0 <= idx && idx <= len(got)
+//@   requires forall j int {want[j]} :: 0 <= j && j < len(want) ==> want[j] != nil
+//@   requires typing: forall i int {got[i]} :: 0 <= i && i < len(got) ==> implements(rvIface(got[i]), "go/ast.Node")
+//@   ensures [C04] trailing-elision-takes-the-rest: len(want) == 0 ==> ok && newIdx == len(got) && dmap(d1) == dotsPushed(dmap(d), dots, got[idx:], secRegion(got, r, idx, len(got)))
+//@   ensures [C04] not-found-means-no-position-matches: len(want) > 0 && !ok ==> forall i int {secOKAt(dots, want, got, dmap(d), r, idx, i)} :: idx <= i && i < len(got) ==> !secOKAt(dots, want, got, dmap(d), r, idx, i)
+//@   ensures [C04] shortest-run-first: len(want) > 0 && ok ==> idx <= newIdx - len(want) && newIdx - len(want) < len(got) && secOKAt(dots, want, got, dmap(d), r, idx, newIdx - len(want)) && forall i int {secOKAt(dots, want, got, dmap(d), r, idx, i)} :: idx <= i && i < newIdx - len(want) ==> !secOKAt(dots, want, got, dmap(d), r, idx, i)
+//@   ensures [C02,C04] data-from-the-successful-attempt-only: len(want) > 0 && ok ==> dmap(d1) == secDAt(dots, want, got, dmap(d), r, idx, newIdx - len(want))
+//@   ensures [C04] !ok ==> newIdx == idx
+//@   ensures [C02] ok ==> keepsBindings(dmap(d), dmap(d1))
+//@   ensures d1 != nil
+//@   assigns nothing
+//@   loop 0
+//@     unfold secOKAt(dots, want, got, dmap(d), r, idx, i) == pfxOK(want, got, dotsPushed(dmap(d), dots, got[idx:i], secRegion(got, r, idx, i)), secRegion(got, r, idx, i), i)
+//@     unfold secDAt(dots, want, got, dmap(d), r, idx, i) == thrAt(want, got, dotsPushed(dmap(d), dots, got[idx:i], secRegion(got, r, idx, i)), secRegion(got, r, idx, i), i, len(want))
+//@     invariant idx <= i
+//@     invariant forall q int {secOKAt(dots, want, got, dmap(d), r, idx, q)} :: idx <= q && q < i ==> !secOKAt(dots, want, got, dmap(d), r, idx, q)
+//@     decreases len(got) - i
